@@ -219,7 +219,16 @@ def _validator(ctx, rep):
             buf = io.StringIO()
             with contextlib.redirect_stdout(buf):
                 try:
-                    got = generator._validate_policy('test')
+                    if n % 2 == 0:
+                        # the command as it is run (oslopolicy-validator exits with the status)
+                        cfg.CONF.reset()
+                        try:
+                            generator.validate_policy(args=['--config-dir', tmp, '--namespace', 'test'])
+                            got = 'returned'
+                        except SystemExit as ex:
+                            got = ex.code
+                    else:
+                        got = generator._validate_policy('test')
                 except Exception as e:     # noqa
                     got = 'raise:' + type(e).__name__
             # oracle from the statement
